@@ -45,7 +45,11 @@ def make_copy(m: dict) -> Path:
 
 
 def run_one(m: dict, props: list[str] | None, tier: str, tests: bool, seed: str) -> dict:
-    d = make_copy(m)
+    try:
+        d = make_copy(m)
+    except SystemExit as e:  # the mutant's anchor text is gone from the tree: report it, do not abort the whole run
+        print(f"{m['id']:40s} NOT-APPLICABLE {e}", flush=True)
+        return {"id": m["id"], "checks": {}, "tests": None, "error": str(e)}
     res = {"id": m["id"], "checks": {}, "tests": None}
     try:
         if tests:
